@@ -77,6 +77,16 @@ Cases == { c \in [fam : OutFams, meth : Methods, f : {f \in Faults : Pairwise(f)
              /\ (c.where = "sw_json" => c.fam \in Soap \cup {"xml"})
              /\ (c.where = "sw_soap11" => c.fam \in {"json", "http", "xml", "msgpack"}) }
 
+\* the thorough tier: the full product fault x family x method x where (no pairwise reduction, every message and detail
+\* from every method shape and raising site)
+CasesThorough == { c \in [fam : OutFams, meth : Methods, f : Faults, where : Wheres] :
+             /\ (c.fam = "soap12" /\ c.f.kind = "fault" => c.f.code[1] \in {"Client", "Server"})
+             /\ (c.where \notin {"fn", "swap"} => c.meth = "f")
+             /\ (c.where = "swap" => (c.f.kind = "exc" \/ c.f.code[1] = "Server") /\ c.f.detail = "none")
+             /\ (c.where # "fn" /\ EffFam(c) = "http" => c.f.detail = "none")
+             /\ (c.where = "sw_json" => c.fam \in Soap \cup {"xml"})
+             /\ (c.where = "sw_soap11" => c.fam \in {"json", "http", "xml", "msgpack"}) }
+
 \* ------------------------------------------------------------------ expected
 Expected(c) ==
   IF c.where = "swap"
